@@ -10,6 +10,7 @@
 package main
 
 import (
+	"encoding/json"
 	"fmt"
 	"go/ast"
 	"go/parser"
@@ -24,9 +25,41 @@ import (
 var fset = token.NewFileSet()
 var files = map[string]*ast.File{}
 
+// genErr: the source no longer has the shape an extractor recognises.  Inside a section of
+// main this is recorded and the section falls back to the reference table (see section).
+type genErr string
+
 func die(format string, args ...any) {
+	panic(genErr(fmt.Sprintf(format, args...)))
+}
+
+func fatal(format string, args ...any) {
 	fmt.Fprintf(os.Stderr, "gen: "+format+"\n", args...)
 	os.Exit(3)
+}
+
+// refDefinition returns the text of `Definition <name> ...` in the reference Generated.v: from its
+// first line to the first line that ends the sentence (a final `.`, possibly followed by a comment).
+func refDefinition(ref, name string) (string, bool) {
+	lines := strings.Split(ref, "\n")
+	for i, l := range lines {
+		if !strings.HasPrefix(l, "Definition "+name+" ") {
+			continue
+		}
+		var b strings.Builder
+		for j := i; j < len(lines); j++ {
+			b.WriteString(lines[j])
+			b.WriteString("\n")
+			t := lines[j]
+			if k := strings.Index(t, "(*"); k >= 0 {
+				t = t[:k]
+			}
+			if strings.HasSuffix(strings.TrimSpace(t), ".") {
+				return b.String(), true
+			}
+		}
+	}
+	return "", false
 }
 
 func load(dir string) {
@@ -34,7 +67,7 @@ func load(dir string) {
 	for _, m := range matches {
 		f, err := parser.ParseFile(fset, m, nil, 0)
 		if err != nil {
-			die("cannot parse %s: %v", m, err)
+			fatal("cannot parse %s: %v", m, err)
 		}
 		files[filepath.Base(m)] = f
 	}
@@ -190,8 +223,16 @@ func keywords() []kw {
 		if !ok {
 			return true
 		}
-		if id, ok := sw.Tag.(*ast.Ident); !ok || id.Name != "str" {
+		// the switch over the identifier's text: its tag is a variable and every label a string literal
+		if _, ok := sw.Tag.(*ast.Ident); !ok {
 			return true
+		}
+		for _, c := range sw.Body.List {
+			for _, e := range c.(*ast.CaseClause).List {
+				if _, ok := strLit(e); !ok {
+					return true
+				}
+			}
 		}
 		found = true
 		for _, c := range sw.Body.List {
@@ -217,9 +258,72 @@ func keywords() []kw {
 		return false
 	})
 	if !found {
+		// the same table written as a package-level map[string]TokenTag{ "begin": Begin, ... }
+		// that identifier() consults
+		if m := keywordMap(fd); m != nil {
+			return m
+		}
 		die("identifier: keyword switch not found")
 	}
 	return out
+}
+
+// keywordMap: identifier() indexes a package-level map literal from string literals to tag names.
+func keywordMap(fd *ast.FuncDecl) []kw {
+	used := map[string]bool{}
+	ast.Inspect(fd, func(n ast.Node) bool {
+		if ix, ok := n.(*ast.IndexExpr); ok {
+			if id, ok := ix.X.(*ast.Ident); ok {
+				used[id.Name] = true
+			}
+		}
+		return true
+	})
+	for _, decl := range files["lexer.go"].Decls {
+		gd, ok := decl.(*ast.GenDecl)
+		if !ok || gd.Tok != token.VAR {
+			continue
+		}
+		for _, sp := range gd.Specs {
+			vs := sp.(*ast.ValueSpec)
+			if len(vs.Names) != 1 || len(vs.Values) != 1 || !used[vs.Names[0].Name] {
+				continue
+			}
+			cl, ok := vs.Values[0].(*ast.CompositeLit)
+			if !ok {
+				continue
+			}
+			mt, ok := cl.Type.(*ast.MapType)
+			if !ok {
+				continue
+			}
+			if k, ok := mt.Key.(*ast.Ident); !ok || k.Name != "string" {
+				continue
+			}
+			if v, ok := mt.Value.(*ast.Ident); !ok || v.Name != "TokenTag" {
+				continue
+			}
+			var out []kw
+			for _, e := range cl.Elts {
+				kv, ok := e.(*ast.KeyValueExpr)
+				if !ok {
+					die("keyword map: entry is not key: value")
+				}
+				key, ok := strLit(kv.Key)
+				if !ok {
+					die("keyword map: key is not a string literal")
+				}
+				tag, ok := kv.Value.(*ast.Ident)
+				if !ok {
+					die("keyword map: value is not a tag name")
+				}
+				out = append(out, kw{key, tag.Name})
+			}
+			sort.Slice(out, func(i, j int) bool { return out[i].text < out[j].text })
+			return out
+		}
+	}
+	return nil
 }
 
 // operators parses the `switch c` of Lexer.Next.
@@ -553,7 +657,6 @@ func runtimeNames() []string {
 	return out
 }
 
-
 // switchCasesOn returns, for the first `switch <tagExpr>` in fd whose tag satisfies match,
 // the case clauses.
 func switchOn(fd *ast.FuncDecl, match func(ast.Expr) bool) []*ast.CaseClause {
@@ -759,268 +862,360 @@ func main() {
 		extractTests(os.Args[2], os.Args[3], os.Args[4])
 		return
 	}
-	if len(os.Args) != 3 {
-		fmt.Fprintln(os.Stderr, "usage: gen <repo/src dir> <output Generated.v>")
+	if len(os.Args) != 3 && len(os.Args) != 4 {
+		fmt.Fprintln(os.Stderr, "usage: gen <repo/src dir> <output Generated.v> [reference Generated.v]")
 		os.Exit(2)
 	}
 	load(os.Args[1])
+	ref := ""
+	if len(os.Args) == 4 {
+		if rb, err := os.ReadFile(os.Args[3]); err == nil {
+			ref = string(rb)
+		}
+	}
 	var b strings.Builder
-	w := func(format string, args ...any) { fmt.Fprintf(&b, format, args...) }
+	cur := &b
+	w := func(format string, args ...any) { fmt.Fprintf(cur, format, args...) }
+	type miss struct {
+		Tables []string `json:"tables"`
+		Reason string   `json:"reason"`
+	}
+	var missing []miss
+	// section: one group of definitions extracted from one place of the source.  When the source no
+	// longer has the shape the extractor recognises, the definitions are taken from the reference
+	// file (the tables of the pinned tree), the failure is recorded in <output>.status.json, and
+	// the checks that lean on these tables report the lost tie (py/framework.py TABLE_PROPS);
+	// the correspondence runs still compare the model built from the reference tables with the code.
+	section := func(names []string, f func()) {
+		var sb strings.Builder
+		cur = &sb
+		reason := ""
+		func() {
+			defer func() {
+				if r := recover(); r != nil {
+					reason = fmt.Sprint(r)
+				}
+			}()
+			f()
+		}()
+		cur = &b
+		if reason == "" {
+			b.WriteString(sb.String())
+			return
+		}
+		missing = append(missing, miss{names, reason})
+		fmt.Fprintf(&b, "(* NOT EXTRACTED (%s): the definitions below are the reference tables of the pinned tree *)\n", strings.ReplaceAll(reason, "*)", "* )"))
+		for _, n := range names {
+			d, ok := refDefinition(ref, n)
+			if !ok {
+				fatal("%s: %s, and no reference definition to fall back to", n, reason)
+			}
+			b.WriteString(d)
+		}
+		b.WriteString("\n")
+	}
 
 	w("(* GENERATED by /verif/gen from /repo/src/*.go -- do not edit; regenerated on every run. *)\n")
 	w("From JQ Require Import Base.Bytes Syntax.Token.\n\n")
 
-	tags := iotaEnum("lexer.go", "TokenTag")
-	w("(* lexer.go: the TokenTag enumeration, in iota order *)\n")
-	w("Definition token_tags : list tag :=\n  [ ")
-	for i, t := range tags {
-		if i > 0 {
-			w("; ")
-			if i%8 == 0 {
-				w("\n    ")
+	section([]string{"token_tags"}, func() {
+		tags := iotaEnum("lexer.go", "TokenTag")
+		w("(* lexer.go: the TokenTag enumeration, in iota order *)\n")
+		w("Definition token_tags : list tag :=\n  [ ")
+		for i, t := range tags {
+			if i > 0 {
+				w("; ")
+				if i%8 == 0 {
+					w("\n    ")
+				}
 			}
+			w("T%s", t)
 		}
-		w("T%s", t)
-	}
-	w(" ].\n\n")
+		w(" ].\n\n")
+	})
 
-	precs := iotaEnum("parser.go", "Precedence")
-	w("(* parser.go: the Precedence enumeration, in iota order *)\n")
-	w("Definition precedences : list prec :=\n  [ %s ].\n\n", strings.Join(precs, "; "))
+	section([]string{"precedences"}, func() {
+		precs := iotaEnum("parser.go", "Precedence")
+		w("(* parser.go: the Precedence enumeration, in iota order *)\n")
+		w("Definition precedences : list prec :=\n  [ %s ].\n\n", strings.Join(precs, "; "))
+	})
 
-	w("(* Lexer.identifier: keyword switch *)\n")
-	w("Definition keyword_table : list (bytes * tag) :=\n  [ ")
-	for i, k := range keywords() {
-		if i > 0 {
-			w(";\n    ")
-		}
-		w("(%s, T%s)", coqStr(k.text), k.tag)
-	}
-	w(" ].\n\n")
-
-	o1, o2, quotes := operators()
-	w("(* Lexer.Next: single-byte tokens (the result when no two-byte token applies) *)\n")
-	w("Definition op1_table : list (byte * tag) :=\n  [ ")
-	for i, o := range o1 {
-		if i > 0 {
-			w("; ")
-			if i%5 == 0 {
-				w("\n    ")
+	section([]string{"keyword_table"}, func() {
+		w("(* Lexer.identifier: keyword switch *)\n")
+		w("Definition keyword_table : list (bytes * tag) :=\n  [ ")
+		for i, k := range keywords() {
+			if i > 0 {
+				w(";\n    ")
 			}
+			w("(%s, T%s)", coqStr(k.text), k.tag)
 		}
-		w("(%d%%N, T%s)", o.c, o.tag)
-	}
-	w(" ].\n\n")
-	w("(* Lexer.Next: two-byte tokens *)\n")
-	w("Definition op2_table : list (byte * byte * tag) :=\n  [ ")
-	for i, o := range o2 {
-		if i > 0 {
-			w("; ")
-			if i%3 == 0 {
-				w("\n    ")
+		w(" ].\n\n")
+	})
+
+	section([]string{"op1_table", "op2_table", "quote_chars"}, func() {
+		o1, o2, quotes := operators()
+		w("(* Lexer.Next: single-byte tokens (the result when no two-byte token applies) *)\n")
+		w("Definition op1_table : list (byte * tag) :=\n  [ ")
+		for i, o := range o1 {
+			if i > 0 {
+				w("; ")
+				if i%5 == 0 {
+					w("\n    ")
+				}
 			}
+			w("(%d%%N, T%s)", o.c, o.tag)
 		}
-		w("(%d%%N, %d%%N, T%s)", o.c, o.d, o.tag)
-	}
-	w(" ].\n\n")
-	w("(* Lexer.Next: bytes that open a string literal *)\n")
-	w("Definition quote_chars : list byte := [ ")
-	for i, q := range quotes {
-		if i > 0 {
-			w("; ")
+		w(" ].\n\n")
+		w("(* Lexer.Next: two-byte tokens *)\n")
+		w("Definition op2_table : list (byte * byte * tag) :=\n  [ ")
+		for i, o := range o2 {
+			if i > 0 {
+				w("; ")
+				if i%3 == 0 {
+					w("\n    ")
+				}
+			}
+			w("(%d%%N, %d%%N, T%s)", o.c, o.d, o.tag)
 		}
-		w("%d%%N", q)
-	}
-	w(" ].\n\n")
-
-	prefixName := map[string]string{"nil": "PfNone", "literal": "PfLiteral", "identifier": "PfIdentifier",
-		"array": "PfArray", "group": "PfGroup", "unary": "PfUnary", "regex": "PfRegex", "match": "PfMatch", "object": "PfObject"}
-	infixName := map[string]string{"nil": "IfNone", "computedMember": "IfComputedMember", "member": "IfMember",
-		"call": "IfCall", "binary": "IfBinary", "assign": "IfAssign", "postfix": "IfPostfix", "is": "IfIs"}
-	w("(* NewParser: p.rules *)\n")
-	w("Definition rule_table : list (tag * parse_rule) :=\n  [ ")
-	for i, r := range ruleTable() {
-		if i > 0 {
-			w(";\n    ")
-		}
-		pf, ok := prefixName[r.prefix]
-		if !ok {
-			die("rule for %s: unknown prefix function %s", r.tag, r.prefix)
-		}
-		inf, ok := infixName[r.infix]
-		if !ok {
-			die("rule for %s: unknown infix function %s", r.tag, r.infix)
-		}
-		w("(T%s, mkRule %s %s %s)", r.tag, r.prec, pf, inf)
-	}
-	w(" ].\n\n")
-
-	kinds := iotaEnum("ast.go", "RuleKind")
-	w("(* ast.go: RuleKind in iota order *)\n")
-	w("Definition rule_kind_names : list bytes := [ ")
-	for i, k := range kinds {
-		if i > 0 {
-			w("; ")
-		}
-		w("%s", coqStr(k))
-	}
-	w(" ].\n\n")
-
-	vtags := iotaEnum("value.go", "ValueTag")
-	w("(* value.go: ValueTag in iota order *)\n")
-	w("Definition value_tag_names : list bytes := [ ")
-	for i, k := range vtags {
-		if i > 0 {
-			w("; ")
-		}
-		w("%s", coqStr(k))
-	}
-	w(" ].\n\n")
-
-	truthy := tagCases(funcDecl("value.go", "Value", "isTruthy"))
-	w("(* Value.isTruthy: the case labels, in order (last one: always truthy) *)\n")
-	w("Definition truthy_cases : list (list bytes) := [ ")
-	for i, c := range truthy {
-		if i > 0 {
-			w("; ")
-		}
-		w("[")
-		for j, n := range c {
-			if j > 0 {
+		w(" ].\n\n")
+		w("(* Lexer.Next: bytes that open a string literal *)\n")
+		w("Definition quote_chars : list byte := [ ")
+		for i, q := range quotes {
+			if i > 0 {
 				w("; ")
 			}
-			w("%s", coqStr(n))
+			w("%d%%N", q)
 		}
-		w("]")
-	}
-	w(" ].\n\n")
+		w(" ].\n\n")
+	})
 
-	cp := tagCases(funcDecl("evaluator.go", "", "copyValue"))
-	w("(* copyValue: the case labels, in order (copied ... shared; default = error) *)\n")
-	w("Definition copy_cases : list (list bytes) := [ ")
-	for i, c := range cp {
-		if i > 0 {
-			w("; ")
+	section([]string{"rule_table"}, func() {
+		prefixName := map[string]string{"nil": "PfNone", "literal": "PfLiteral", "identifier": "PfIdentifier",
+			"array": "PfArray", "group": "PfGroup", "unary": "PfUnary", "regex": "PfRegex", "match": "PfMatch", "object": "PfObject"}
+		infixName := map[string]string{"nil": "IfNone", "computedMember": "IfComputedMember", "member": "IfMember",
+			"call": "IfCall", "binary": "IfBinary", "assign": "IfAssign", "postfix": "IfPostfix", "is": "IfIs"}
+		w("(* NewParser: p.rules *)\n")
+		w("Definition rule_table : list (tag * parse_rule) :=\n  [ ")
+		for i, r := range ruleTable() {
+			if i > 0 {
+				w(";\n    ")
+			}
+			pf, ok := prefixName[r.prefix]
+			if !ok {
+				die("rule for %s: unknown prefix function %s", r.tag, r.prefix)
+			}
+			inf, ok := infixName[r.infix]
+			if !ok {
+				die("rule for %s: unknown infix function %s", r.tag, r.infix)
+			}
+			w("(T%s, mkRule %s %s %s)", r.tag, r.prec, pf, inf)
 		}
-		w("[")
-		for j, n := range c {
-			if j > 0 {
+		w(" ].\n\n")
+	})
+
+	section([]string{"rule_kind_names"}, func() {
+		kinds := iotaEnum("ast.go", "RuleKind")
+		w("(* ast.go: RuleKind in iota order *)\n")
+		w("Definition rule_kind_names : list bytes := [ ")
+		for i, k := range kinds {
+			if i > 0 {
 				w("; ")
 			}
-			w("%s", coqStr(n))
+			w("%s", coqStr(k))
 		}
-		w("]")
-	}
-	w(" ].\n\n")
+		w(" ].\n\n")
+	})
 
-	w("(* prototypes.go / runtime.go: native function names (sorted) *)\n")
-	for _, p := range []struct{ fn, def string }{
-		{"getArrayPrototype", "array_proto_names"}, {"getObjPrototype", "obj_proto_names"},
-		{"getStrPrototype", "str_proto_names"}, {"getNumPrototype", "num_proto_names"}} {
-		w("Definition %s : list bytes := [ ", p.def)
-		for i, n := range protoNames(p.fn) {
+	section([]string{"value_tag_names"}, func() {
+		vtags := iotaEnum("value.go", "ValueTag")
+		w("(* value.go: ValueTag in iota order *)\n")
+		w("Definition value_tag_names : list bytes := [ ")
+		for i, k := range vtags {
+			if i > 0 {
+				w("; ")
+			}
+			w("%s", coqStr(k))
+		}
+		w(" ].\n\n")
+	})
+
+	section([]string{"truthy_cases"}, func() {
+		truthy := tagCases(funcDecl("value.go", "Value", "isTruthy"))
+		w("(* Value.isTruthy: the case labels, in order (last one: always truthy) *)\n")
+		w("Definition truthy_cases : list (list bytes) := [ ")
+		for i, c := range truthy {
+			if i > 0 {
+				w("; ")
+			}
+			w("[")
+			for j, n := range c {
+				if j > 0 {
+					w("; ")
+				}
+				w("%s", coqStr(n))
+			}
+			w("]")
+		}
+		w(" ].\n\n")
+	})
+
+	section([]string{"copy_cases"}, func() {
+		cp := tagCases(funcDecl("evaluator.go", "", "copyValue"))
+		w("(* copyValue: the case labels, in order (copied ... shared; default = error) *)\n")
+		w("Definition copy_cases : list (list bytes) := [ ")
+		for i, c := range cp {
+			if i > 0 {
+				w("; ")
+			}
+			w("[")
+			for j, n := range c {
+				if j > 0 {
+					w("; ")
+				}
+				w("%s", coqStr(n))
+			}
+			w("]")
+		}
+		w(" ].\n\n")
+	})
+
+	section([]string{"array_proto_names", "obj_proto_names", "str_proto_names", "num_proto_names", "runtime_names"}, func() {
+		w("(* prototypes.go / runtime.go: native function names (sorted) *)\n")
+		for _, p := range []struct{ fn, def string }{
+			{"getArrayPrototype", "array_proto_names"}, {"getObjPrototype", "obj_proto_names"},
+			{"getStrPrototype", "str_proto_names"}, {"getNumPrototype", "num_proto_names"}} {
+			w("Definition %s : list bytes := [ ", p.def)
+			for i, n := range protoNames(p.fn) {
+				if i > 0 {
+					w("; ")
+				}
+				w("%s", coqStr(n))
+			}
+			w(" ].\n")
+		}
+		w("Definition runtime_names : list bytes := [ ")
+		for i, n := range runtimeNames() {
 			if i > 0 {
 				w("; ")
 			}
 			w("%s", coqStr(n))
 		}
-		w(" ].\n")
-	}
-	w("Definition runtime_names : list bytes := [ ")
-	for i, n := range runtimeNames() {
-		if i > 0 {
-			w("; ")
-		}
-		w("%s", coqStr(n))
-	}
-	w(" ].\n\n")
+		w(" ].\n\n")
+	})
 
-	ws, comment := whitespace()
-	w("(* Lexer.skipWhitespace: skipped bytes, and the byte that opens a comment up to the line end *)\n")
-	w("Definition ws_chars : list byte := [ ")
-	for i, c := range ws {
-		if i > 0 {
-			w("; ")
-		}
-		w("%d%%N", c)
-	}
-	w(" ].\nDefinition comment_chars : list byte := [ ")
-	for i, c := range comment {
-		if i > 0 {
-			w("; ")
-		}
-		w("%d%%N", c)
-	}
-	w(" ].\n\n")
-
-	w("(* Evaluator.evalString: escape letter -> byte produced (anything else is an error) *)\n")
-	w("Definition escape_table : list (byte * byte) := [ ")
-	for i, e := range escapes() {
-		if i > 0 {
-			w("; ")
-		}
-		w("(%d%%N, %d%%N)", e[0], e[1])
-	}
-	w(" ].\n\n")
-
-	w("(* evalBinaryExpr: the type names of `is` (besides the keywords function and null) *)\n")
-	w("Definition is_type_names : list bytes := [ ")
-	for i, n := range isTypeNames() {
-		if i > 0 {
-			w("; ")
-		}
-		w("%s", coqStr(n))
-	}
-	w(" ].\n\n")
-
-	w("(* nativePrintf: directive characters *)\n")
-	w("Definition printf_directives : list byte := [ ")
-	for i, c := range printfDirectives() {
-		if i > 0 {
-			w("; ")
-		}
-		w("%d%%N", c)
-	}
-	w(" ].\n\n")
-
-	w("(* rewriteCompundAssingment: compound assignment token -> operator *)\n")
-	w("Definition compound_table : list (tag * tag) := [ ")
-	for i, c := range compoundOps() {
-		if i > 0 {
-			w("; ")
-		}
-		w("(T%s, T%s)", c[0], c[1])
-	}
-	w(" ].\n\n")
-
-	ar := arities()
-	var arNames []string
-	for k := range ar {
-		arNames = append(arNames, k)
-	}
-	sort.Strings(arNames)
-	w("(* checkArgCount(v, N) of every native (-1: no exact count is demanded) *)\n")
-	w("Definition native_arities : list (bytes * Z) :=\n  [ ")
-	for i, k := range arNames {
-		if i > 0 {
-			w("; ")
-			if i%4 == 0 {
-				w("\n    ")
+	section([]string{"ws_chars", "comment_chars"}, func() {
+		ws, comment := whitespace()
+		w("(* Lexer.skipWhitespace: skipped bytes, and the byte that opens a comment up to the line end *)\n")
+		w("Definition ws_chars : list byte := [ ")
+		for i, c := range ws {
+			if i > 0 {
+				w("; ")
 			}
+			w("%d%%N", c)
 		}
-		w("(%s, (%d)%%Z)", coqStr(k), ar[k])
-	}
-	w(" ].\n\n")
+		w(" ].\nDefinition comment_chars : list byte := [ ")
+		for i, c := range comment {
+			if i > 0 {
+				w("; ")
+			}
+			w("%d%%N", c)
+		}
+		w(" ].\n\n")
+	})
+
+	section([]string{"escape_table"}, func() {
+		w("(* Evaluator.evalString: escape letter -> byte produced (anything else is an error) *)\n")
+		w("Definition escape_table : list (byte * byte) := [ ")
+		for i, e := range escapes() {
+			if i > 0 {
+				w("; ")
+			}
+			w("(%d%%N, %d%%N)", e[0], e[1])
+		}
+		w(" ].\n\n")
+	})
+
+	section([]string{"is_type_names"}, func() {
+		w("(* evalBinaryExpr: the type names of `is` (besides the keywords function and null) *)\n")
+		w("Definition is_type_names : list bytes := [ ")
+		for i, n := range isTypeNames() {
+			if i > 0 {
+				w("; ")
+			}
+			w("%s", coqStr(n))
+		}
+		w(" ].\n\n")
+	})
+
+	section([]string{"printf_directives"}, func() {
+		w("(* nativePrintf: directive characters *)\n")
+		w("Definition printf_directives : list byte := [ ")
+		for i, c := range printfDirectives() {
+			if i > 0 {
+				w("; ")
+			}
+			w("%d%%N", c)
+		}
+		w(" ].\n\n")
+	})
+
+	section([]string{"compound_table"}, func() {
+		w("(* rewriteCompundAssingment: compound assignment token -> operator *)\n")
+		w("Definition compound_table : list (tag * tag) := [ ")
+		for i, c := range compoundOps() {
+			if i > 0 {
+				w("; ")
+			}
+			w("(T%s, T%s)", c[0], c[1])
+		}
+		w(" ].\n\n")
+	})
+
+	section([]string{"native_arities"}, func() {
+		ar := arities()
+		var arNames []string
+		for k := range ar {
+			arNames = append(arNames, k)
+		}
+		sort.Strings(arNames)
+		w("(* checkArgCount(v, N) of every native (-1: no exact count is demanded) *)\n")
+		w("Definition native_arities : list (bytes * Z) :=\n  [ ")
+		for i, k := range arNames {
+			if i > 0 {
+				w("; ")
+				if i%4 == 0 {
+					w("\n    ")
+				}
+			}
+			w("(%s, (%d)%%Z)", coqStr(k), ar[k])
+		}
+		w(" ].\n\n")
+	})
 
 	w("(* resource limits *)\n")
-	w("Definition call_depth_limit : Z := %d.\n", intVar("evaluator.go", "callDepthLimit"))
-	w("Definition fuzzing_loop_limit : Z := %d.\n", intVar("evaluator.go", "fuzzingLoopLimit"))
-	w("Definition fill_limit : Z := %d.        (* Value.SetMember: index > limit is refused *)\n",
-		limitIn(funcDecl("value.go", "Value", "SetMember"), "index"))
-	w("Definition printf_width_limit : Z := %d.  (* nativePrintf: |width| > limit is refused *)\n",
-		limitIn(funcDecl("runtime.go", "", "nativePrintf"), "num"))
+	section([]string{"call_depth_limit"}, func() {
+		w("Definition call_depth_limit : Z := %d.\n", intVar("evaluator.go", "callDepthLimit"))
+	})
+	section([]string{"fuzzing_loop_limit"}, func() {
+		w("Definition fuzzing_loop_limit : Z := %d.\n", intVar("evaluator.go", "fuzzingLoopLimit"))
+	})
+	section([]string{"fill_limit"}, func() {
+		w("Definition fill_limit : Z := %d.        (* Value.SetMember: index > limit is refused *)\n",
+			limitIn(funcDecl("value.go", "Value", "SetMember"), "index"))
+	})
+	section([]string{"printf_width_limit"}, func() {
+		w("Definition printf_width_limit : Z := %d.  (* nativePrintf: |width| > limit is refused *)\n",
+			limitIn(funcDecl("runtime.go", "", "nativePrintf"), "num"))
+	})
 
 	if err := os.WriteFile(os.Args[2], []byte(b.String()), 0o644); err != nil {
-		die("cannot write %s: %v", os.Args[2], err)
+		fatal("cannot write %s: %v", os.Args[2], err)
+	}
+	if missing == nil {
+		missing = []miss{}
+	}
+	st, _ := json.MarshalIndent(map[string]any{"missing": missing}, "", " ")
+	if err := os.WriteFile(os.Args[2]+".status.json", st, 0o644); err != nil {
+		fatal("cannot write status: %v", err)
 	}
 }
